@@ -183,7 +183,7 @@ Fixpoint fide_parse_rule (rule : xml) : result node :=
         | _, _ => Err IndexError
         end in
       if String.eqb tag fide_TAG_VAR then
-        match text with Some t => Ok (term t) | None => Err OtherExn end
+        match text with Some t => Ok (term t) | None => Err FlamaException end   (* fix: an empty <var> is rejected *)
       else if String.eqb tag fide_TAG_NOT then
         match sub 0%nat with Err e => Err e | Ok a => Ok (un NOT a) end
       else if String.eqb tag fide_TAG_IMP then
